@@ -26,11 +26,21 @@
 #ifdef VOMP_TSAN
 extern "C" void __tsan_acquire(void*);
 extern "C" void __tsan_release(void*);
+// the harness-supplied state hash reads the whole shared state from whichever thread reached the scheduling point: an observation of
+// the explorer, not an access of the program
+extern "C" void AnnotateIgnoreReadsBegin(const char*, int);
+extern "C" void AnnotateIgnoreReadsEnd(const char*, int);
+extern "C" void AnnotateIgnoreWritesBegin(const char*, int);
+extern "C" void AnnotateIgnoreWritesEnd(const char*, int);
+#define HASH_BEGIN() do { AnnotateIgnoreReadsBegin(__FILE__, __LINE__); AnnotateIgnoreWritesBegin(__FILE__, __LINE__); } while (0)
+#define HASH_END() do { AnnotateIgnoreWritesEnd(__FILE__, __LINE__); AnnotateIgnoreReadsEnd(__FILE__, __LINE__); } while (0)
 #define TSAN_ACQ(p) __tsan_acquire(p)
 #define TSAN_REL(p) __tsan_release(p)
 #else
 #define TSAN_ACQ(p) ((void)0)
 #define TSAN_REL(p) ((void)0)
+#define HASH_BEGIN() ((void)0)
+#define HASH_END() ((void)0)
 #endif
 
 namespace vomp {
@@ -113,7 +123,7 @@ static int choose(int cur, const char* site) {
         p.n_enabled = n; p.choice = pick; p.running_enabled = (cur >= 0 && n > 0 && en[0] == cur) ? 1 : 0;
         p.site = site; p.chosen_tid = en[pick];
         for (int i = 0; i < n && i < 8; i++) p.enabled[i] = en[i];
-        unsigned long h = g_state_hash ? g_state_hash() : 0;
+        HASH_BEGIN(); unsigned long h = g_state_hash ? g_state_hash() : 0; HASH_END();
         // key of the scheduler state: shared hash, lock owners, per-thread (state, site, steps, view)
         unsigned long k = h * 1099511628211ul;
         for (int i = 0; i < g_nlocks; i++) if (g_locks[i].owner >= 0) k = (k ^ ((unsigned long)(i + 1) * 31 + g_locks[i].owner)) * 1099511628211ul;
@@ -135,7 +145,7 @@ static int choose(int cur, const char* site) {
 
 static void resume(int t) {
     g_running = t;
-    unsigned long h = g_state_hash ? g_state_hash() : 0;
+    HASH_BEGIN(); unsigned long h = g_state_hash ? g_state_hash() : 0; HASH_END();
     g_thr[t].view = (g_thr[t].view ^ h) * 1099511628211ul + 0x9e3779b97f4a7c15ul;
     if (g_thr[t].state == 2) { // it was blocked on a lock which is now free: it acquires it on resumption
         lock_ent(g_thr[t].waits_on)->owner = t;
@@ -294,11 +304,8 @@ void GOMP_atomic_end() { if (g_mode != MODE_SERIAL) pthread_mutex_unlock(&g_real
 // bytes) and default-constructed nodes never call omp_init_lock; libgomp tolerates this because its lock is a plain
 // int.  The side table gives the same semantics without touching the bytes.
 static pthread_mutex_t g_real_locks[64];
-static bool g_real_locks_init = false;
-static pthread_mutex_t* real_lock_for(const void* a) {
-    if (!g_real_locks_init) { for (auto& m : g_real_locks) pthread_mutex_init(&m, nullptr); g_real_locks_init = true; }
-    return &g_real_locks[((unsigned long)a >> 4) % 64];
-}
+static struct RealLocksInit { RealLocksInit() { for (auto& m : g_real_locks) pthread_mutex_init(&m, nullptr); } } g_real_locks_init;   // at load time, single threaded
+static pthread_mutex_t* real_lock_for(const void* a) { return &g_real_locks[((unsigned long)a >> 4) % 64]; }
 void omp_init_lock(void* l) { }
 void omp_destroy_lock(void* l) { }
 void omp_set_lock(void* l) {
